@@ -146,15 +146,18 @@ def run_shards(outdir, shards, jobs=16):
     while pending or running:
         while pending and len(running) < jobs:
             s = pending.pop(0)
+            # output goes to a file: a large mismatch report would fill a pipe and block coqc forever
+            fo = open(os.path.join(outdir, s + ".out"), "w")
             p = subprocess.Popen(["timeout", "1700", "coqc", "-noglob"] + COQFLAGS + [s], cwd=outdir,
-                                 stdout=subprocess.PIPE, stderr=subprocess.STDOUT, text=True, env=env)
+                                 stdout=fo, stderr=subprocess.STDOUT, text=True, env=env)
+            fo.close()
             running.append((s, p))
         still = []
         for s, p in running:
             if p.poll() is None:
                 still.append((s, p))
             else:
-                results[s] = (p.returncode, p.stdout.read())
+                results[s] = (p.returncode, open(os.path.join(outdir, s + ".out")).read())
         running = still
         if running:
             time.sleep(0.05)
